@@ -299,10 +299,10 @@ class Protocol:
         if message.TYPE == Notification.TYPE:
             raise cast(Notification, message)
 
-        if isinstance(message, Update) and Attribute.CODE.INTERNAL_DISCARD in message.data.attributes:
-            return _NOP
-        else:
-            return message
+        # RFC 7606 attribute discard drops the ATTRIBUTE, which the decoder has done already (the marker only says
+        # so): the rest of the UPDATE stands. Returning a no-op here kept it from Adj-RIB-In while the API had
+        # been told about it in full, so the withdraws and the announces of such an UPDATE were lost.
+        return message
 
     def validate_open(self) -> None:
         error: tuple[int, int, str] | None = self.negotiated.validate(self.neighbor)
